@@ -1,0 +1,120 @@
+//! Verification hook (only compiled with `--cfg gamedig_verif`; nothing here exists in a normal build).
+//!
+//! * `GAMEDIG_VERIF_PLAN=1`: after the game was looked up and the host resolved, print the PLAN of the
+//!   invocation (what would be handed to `query_with_timeout_and_extra_settings` and to `output_result`)
+//!   on one line and exit successfully instead of querying.
+//! * `GAMEDIG_VERIF_PRINT=1`: read one JSON value from stdin and hand it to the writer of the requested
+//!   output format (`output_result_*`) in place of a query result.
+use std::cell::Cell;
+use std::net::IpAddr;
+use std::time::Duration;
+
+use gamedig::games::Game;
+use gamedig::protocols::types::{ExtraRequestSettings, GatherToggle, TimeoutSettings};
+
+use super::{OutputFormat, OutputMode};
+
+thread_local! {
+    static NAME_BRANCH: Cell<bool> = const { Cell::new(false) };
+}
+
+/// `resolve_ip_or_domain` took the branch for host names (the host was not an IP literal)
+pub fn note_name_branch() { NAME_BRANCH.with(|c| c.set(true)); }
+
+pub fn plan_requested() -> bool { std::env::var_os("GAMEDIG_VERIF_PLAN").is_some() }
+
+pub fn print_requested() -> bool { std::env::var_os("GAMEDIG_VERIF_PRINT").is_some() }
+
+fn hex(s: &str) -> String {
+    if s.is_empty() {
+        return "-".to_string();
+    }
+    s.bytes().map(|b| format!("{b:02x}")).collect()
+}
+
+fn opt<T>(v: &Option<T>, f: impl Fn(&T) -> String) -> String {
+    match v {
+        Some(x) => f(x),
+        None => "-".to_string(),
+    }
+}
+
+fn dur(d: &Option<Duration>) -> String {
+    match d {
+        Some(d) => format!("+{}:{}", d.as_secs(), d.subsec_nanos()),
+        None => "-".to_string(),
+    }
+}
+
+fn toggle(t: &GatherToggle) -> String {
+    match t {
+        GatherToggle::Skip => "s",
+        GatherToggle::Try => "t",
+        GatherToggle::Enforce => "e",
+    }
+    .to_string()
+}
+
+fn extra(e: &ExtraRequestSettings) -> String {
+    format!(
+        "E{}:{}:{}:{}:{}",
+        // `=` + hex, so that an empty host name differs from none
+        opt(&e.hostname, |h| format!("={}", h.bytes().map(|b| format!("{b:02x}")).collect::<String>())),
+        opt(&e.protocol_version, |v| v.to_string()),
+        opt(&e.gather_players, toggle),
+        opt(&e.gather_rules, toggle),
+        opt(&e.check_app_id, |b| if *b { "T" } else { "F" }.to_string()),
+    )
+}
+
+#[allow(clippy::too_many_arguments)]
+pub fn print_plan(
+    game: &Game,
+    ip: &IpAddr,
+    port: Option<u16>,
+    format: &OutputFormat,
+    output_mode: &OutputMode,
+    timeout_settings: &Option<TimeoutSettings>,
+    extra_options: &Option<ExtraRequestSettings>,
+) {
+    println!(
+        "PLAN game={} defport={} proto={} reqset={} host={} ip={} port={} timeout={} extra={} mode={:?} format={:?}",
+        hex(game.name),
+        game.default_port,
+        hex(&format!("{:?}", game.protocol)),
+        extra(&game.request_settings),
+        if NAME_BRANCH.with(|c| c.get()) { "name" } else { "literal" },
+        ip,
+        opt(&port, |p| p.to_string()),
+        opt(timeout_settings, |t| {
+            format!(
+                "c{},r{},w{},n{}",
+                dur(&t.get_connect()),
+                dur(&t.get_read()),
+                dur(&t.get_write()),
+                t.get_retries()
+            )
+        }),
+        opt(extra_options, extra),
+        output_mode,
+        format,
+    );
+}
+
+/// the writer of `format` on a JSON value read from stdin
+#[cfg(all(feature = "json", feature = "xml", feature = "bson"))]
+pub fn print_value(format: OutputFormat) -> super::Result<()> {
+    use std::io::Read;
+    let mut text = String::new();
+    std::io::stdin().read_to_string(&mut text)?;
+    let value: serde_json::Value = serde_json::from_str(&text)?;
+    match format {
+        OutputFormat::Debug => super::output_result_debug(&value),
+        OutputFormat::JsonPretty => super::output_result_json_pretty(&value)?,
+        OutputFormat::Json => super::output_result_json(&value)?,
+        OutputFormat::Xml => super::output_result_xml(&value)?,
+        OutputFormat::BsonHex => super::output_result_bson_hex(&value)?,
+        OutputFormat::BsonBase64 => super::output_result_bson_base64(&value)?,
+    }
+    Ok(())
+}
